@@ -7,7 +7,7 @@
 //! seeded lines (pigeonhole counting).
 use prio::field::verif::{FieldV17, FieldV193, FieldV97};
 use prio::field::{Field128, Field64};
-use prio::flp::{FlpError, Type};
+use prio::flp::Type;
 use pvh::engine::{catch, fnv, splitmix, Level, Run};
 use pvh::kit::flpexh::{adversarial_count, vf, ForgedGadget, SmallCfg, SmallExh};
 use pvh::kit::flpkit::{build, Spec, Visit};
@@ -317,7 +317,7 @@ where
             run.count("evaluations", 1);
             run.count("deployed_root_cases", 1);
             match catch(|| t.query(&xf, &proof, &qr, &jr, 1)) {
-                Ok(Err(FlpError::Query(_))) if expect_refused => {}
+                Ok(Err(_)) if expect_refused => {}
                 Ok(Ok(v)) if !expect_refused => {
                     if !t.decide(&v).unwrap() {
                         run.fail(&format!("dep/{name}/completeness"), &format!("{name}: valid input rejected at gadget query point {}", r.val()), json!({"spec": spec.name(), "p": p.to_string(), "r": r.val().to_string()}));
@@ -426,19 +426,19 @@ fn main() {
             (Spec::SumVec { max: 1, len: 2, chunk: 1 }, c(289, 289, if q { 3 } else { 27 }, 1)),
             (Spec::SumVec { max: 1, len: 2, chunk: 2 }, c(289, 17, if q { 9 } else { 81 }, 1)),
             (Spec::SumVec { max: 1, len: 3, chunk: 2 }, c(4913, 289, if q { 1 } else { 3 }, 1)),
-            (Spec::Histogram { len: 2, chunk: 1 }, c(289, 289, if q { 1 } else { 3 }, if q { 17 } else { 289 })),
+            (Spec::Histogram { len: 2, chunk: 1 }, c(289, 289, 1, if q { 17 } else { 100 })),
             (Spec::Histogram { len: 2, chunk: 2 }, c(289, 17, 3, if q { 36 } else { 289 })),
-            (Spec::Histogram { len: 3, chunk: 2 }, c(4913, if q { 72 } else { 289 }, 1, if q { 2 } else { 36 })),
-            (Spec::Multihot { len: 2, max_weight: 1, chunk: 2 }, c(4913, if q { 72 } else { 289 }, 1, if q { 2 } else { 36 })),
+            (Spec::Histogram { len: 3, chunk: 2 }, c(4913, if q { 72 } else { 289 }, 1, if q { 2 } else { 6 })),
+            (Spec::Multihot { len: 2, max_weight: 1, chunk: 2 }, c(4913, if q { 72 } else { 289 }, 1, if q { 2 } else { 6 })),
             (Spec::L1 { max: 1, len: 1, chunk: 2 }, c(289, 17, 3, if q { 36 } else { 289 })),
         ];
         if !q {
-            v.push((Spec::SumVec { max: 2, len: 2, chunk: 3 }, c(83521, 289, 1, 1)));
-            v.push((Spec::Multihot { len: 2, max_weight: 2, chunk: 3 }, c(83521, 289, 1, 4)));
-            v.push((Spec::L1 { max: 1, len: 2, chunk: 2 }, c(4913, 289, 1, 36)));
-            v.push((Spec::L1 { max: 2, len: 1, chunk: 3 }, c(83521, 289, 1, 4)));
+            v.push((Spec::SumVec { max: 2, len: 2, chunk: 3 }, c(83521, 100, 1, 1)));
+            v.push((Spec::Multihot { len: 2, max_weight: 2, chunk: 3 }, c(83521, 100, 1, 1)));
+            v.push((Spec::L1 { max: 1, len: 2, chunk: 2 }, c(4913, 289, 1, 4)));
+            v.push((Spec::L1 { max: 2, len: 1, chunk: 3 }, c(83521, 100, 1, 1)));
             v.push((Spec::Sum { max: 5 }, c(4913, 1, 3, 216)));
-            v.push((Spec::Histogram { len: 4, chunk: 3 }, c(83521, 289, 1, 4)));
+            v.push((Spec::Histogram { len: 4, chunk: 3 }, c(83521, 100, 1, 1)));
         }
         v
     };
@@ -457,8 +457,8 @@ fn main() {
         ];
         if !q {
             v.push((Spec::SumVec { max: 3, len: 3, chunk: 2 }, c(4096, 36, 1, 1))); // alphabet inputs {0,1,96,2}^6
-            v.push((Spec::L1 { max: 1, len: 1, chunk: 1 }, c(9409, 9409, 1, 16)));
-            v.push((Spec::Deg3 { len: 3 }, c(912673, 1, 1, 27)));
+            v.push((Spec::L1 { max: 1, len: 1, chunk: 1 }, c(9409, 300, 1, 2)));
+            v.push((Spec::Deg3 { len: 3 }, c(912673, 1, 1, 9)));
         }
         v
     };
